@@ -85,24 +85,39 @@ class Pkg:
         return out
 
     def func_draws(self, name: str, stack=()) -> bool:
-        """does any definition called `name` in the package (transitively) draw from np.random ?"""
+        """does any definition called `name` in the package (transitively) draw from np.random OUTSIDE a seeded region
+        of its own (`with set_random_seed(<some argument>)`: a helper that seeds itself is as good as a seeded caller) ?"""
         if name in self._draws:
             return self._draws[name]
         if name in stack:
             return False
         res = False
         bodies = list(self.defs.get(name, [])) + self.class_inits(name)
-        for fd in bodies:
-            for n in ast.walk(fd):
-                if isinstance(n, ast.Call):
-                    if _is_global_draw(n):
+
+        def visit(node, fd):
+            nonlocal res
+            if res:
+                return
+            if isinstance(node, ast.With) and _guard_with(node, any_argument=True):
+                for it in node.items:
+                    visit(it.context_expr, fd)
+                return  # the body is a seeded region
+            if isinstance(node, (ast.FunctionDef, ast.AsyncFunctionDef, ast.Lambda)) and node is not fd:
+                return
+            if isinstance(node, ast.Call):
+                if _is_global_draw(node):
+                    res = True
+                    return
+                for cn in self.callee_names(node):
+                    if cn != name and (cn in self.defs or self.class_inits(cn)) and self.func_draws(cn, stack + (name,)):
                         res = True
-                    else:
-                        for cn in self.callee_names(n):
-                            if cn != name and (cn in self.defs or self.class_inits(cn)) and self.func_draws(cn, stack + (name,)):
-                                res = True
-                if res:
-                    break
+                        return
+            for ch in ast.iter_child_nodes(node):
+                visit(ch, fd)
+
+        for fd in bodies:
+            for st in fd.body:
+                visit(st, fd)
             if res:
                 break
         self._draws[name] = res
@@ -114,11 +129,14 @@ class Pkg:
         return any(self.func_draws(cn) for cn in self.callee_names(call) if cn in self.defs or self.class_inits(cn))
 
 
-def _guard_with(node: ast.With) -> bool:
+def _guard_with(node: ast.With, any_argument: bool = False) -> bool:
+    """`with set_random_seed(seed)` / `(seed=seed)`; with any_argument: seeded by whatever the helper was handed"""
     for it in node.items:
         c = it.context_expr
         if isinstance(c, ast.Call) and _attr_chain(c.func)[-1:] == ["set_random_seed"]:
             args = list(c.args) + [k.value for k in c.keywords]
+            if any_argument and args and not all(isinstance(a, ast.Constant) and a.value is None for a in args):
+                return True
             if any(isinstance(a, ast.Name) and a.id == "seed" for a in args):
                 return True
     return False
